@@ -281,6 +281,7 @@ func (w *World) checkQuiescentInvariants() {
 	}
 	w.checkGates()
 	w.checkSyncs()
+	w.checkDueTriggers()
 }
 
 func (w *World) finalChecks() {}
